@@ -362,6 +362,11 @@ func HandleSendJoin(input HandleSendJoinInput) (*HandleSendJoinResponse, error) 
 		return nil, spec.BadJSON("The request body could not be decoded into valid JSON: " + err.Error())
 	}
 
+	// Check that this is a membership event.
+	if event.Type() != spec.MRoomMember {
+		return nil, spec.BadJSON("The join event must be an m.room.member event.")
+	}
+
 	// Check that a state key is provided.
 	if event.StateKey() == nil || event.StateKeyEquals("") {
 		return nil, spec.BadJSON("No state key was provided in the join event.")
